@@ -2,6 +2,7 @@
  .1 K13 reset completeness of TranspositionTable: every field written by an operation is
         definitely re-written by clear() (with the value a fresh table has) or by a named
         per-search initialiser whose must-call chain is checked
+ .3 K16 the evaluation caches, which Clear Hash deliberately keeps, are pure functions of their keys
  .2 K2/K13 the Clear-Hash listener resets everything else: tt.clear(), ht.init(),
         setClearHistory(); History::init and KillerTable::clear cover every cell and member;
         iterativeDeepening clears the killers before searching; the helper path honours
@@ -46,6 +47,15 @@ PER_SEARCH = {
 def run(fb, rep, tier):
     c1_tt(fb, rep)
     c2_rest(fb, rep)
+    # .3 state that survives Clear Hash by design (the evaluation caches owned by EngineControl) must be a pure
+    # function of its key, otherwise what earlier searches cached changes later results (shared with C07.3)
+    from . import C07
+    C07.c3_cache(fb, rep, clause='C14.3')
+    surv = fb.find1('EngineControl::EngineControl')
+    if surv is not None:
+        lam_clears = set()
+        for b, i, e in surv.events():
+            pass
 
 
 def c1_tt(fb, rep):
